@@ -433,6 +433,10 @@ impl LogReader {
         // A buffer consolidating all of the fragments retrieved from the log file.
         let mut data_buffer: Vec<u8> = vec![];
 
+        // True while the fragments of a record that started with a `First` fragment are being
+        // collected.
+        let mut is_in_fragmented_record = false;
+
         loop {
             let maybe_record = self.read_physical_record();
             if let Err(physical_read_err) = maybe_record {
@@ -442,18 +446,35 @@ impl LogReader {
                         _ => return Err(physical_read_err),
                     }
                 }
+
+                // A damaged fragment invalidates the record it was a part of. Drop whatever was
+                // collected for that record instead of gluing it to later fragments.
+                data_buffer.clear();
+                is_in_fragmented_record = false;
             } else {
                 let record = maybe_record.unwrap();
-                data_buffer.extend(record.data);
 
                 match record.block_type {
                     BlockType::Full => {
-                        return Ok((data_buffer, false));
+                        // Fragments collected so far belong to a record that was never finished
+                        // (e.g. the writer died mid-record and a later writer appended to the
+                        // file). They are dropped.
+                        return Ok((record.data, false));
                     }
-                    BlockType::First => {}
-                    BlockType::Middle => {}
+                    BlockType::First => {
+                        data_buffer = record.data;
+                        is_in_fragmented_record = true;
+                    }
+                    BlockType::Middle => {
+                        if is_in_fragmented_record {
+                            data_buffer.extend(record.data);
+                        }
+                    }
                     BlockType::Last => {
-                        return Ok((data_buffer, false));
+                        if is_in_fragmented_record {
+                            data_buffer.extend(record.data);
+                            return Ok((data_buffer, false));
+                        }
                     }
                 }
             }
